@@ -186,16 +186,42 @@ class GetLineColC(RtContract):
             yield 'column', st.ret.items[1] == col_of(cx, pos)
 
 
+class Table(Opaque):
+    """a list known by contract to hold f(i) at every index 0 <= i < n (no quantifier needed: lookups are answered by f)"""
+    def __init__(self, name, n, f):
+        Opaque.__init__(self, 'table', name=name, n=n, f=f)
+
+
 def call_map_index(cx, ex, node, st):
-    """callee known by contract (MapIndexC)"""
+    """callee known by contract (MapIndexC): the two tables hold line_of(i) / col_of(i) for every index of the text"""
     t = ex.ev(node.args[0], st)
     if t is not cx.text:
         raise OutOfSubset('_map_index_to_line_and_column on another value')
-    L, C = ex.fv('L', SeqI), ex.fv('C', SeqI)
-    j = Const('j', I)
-    st.assume(Length(L) == cx.N, Length(C) == cx.N,
-              ForAll([j], Implies(And(0 <= j, j < cx.N), And(L[j] == line_of(cx, j), C[j] == col_of(cx, j)))))
-    return Tup([L, C])
+    install_table_lookup(ex)
+    return Tup([Table('line_numbers', cx.N, lambda i: line_of(cx, i)), Table('column_numbers', cx.N, lambda i: col_of(cx, i))])
+
+
+def install_table_lookup(ex):
+    if getattr(ex, '_tables_installed', False):
+        return
+    ex._tables_installed = True
+    orig = ex.do_index
+
+    def do_index(e, recv, idx, st):
+        if isinstance(recv, Table):
+            idx = ex.as_int(idx)
+            # the contract relies on the element AT the index (no wrap-around): demand 0 <= i < len
+            ex.safety(st, 'index-in-range (IndexError / silent wrap-around otherwise)', e, And(0 <= idx, idx < recv.n))
+            return recv.f(idx)
+        return orig(e, recv, idx, st)
+    ex.do_index = do_index
+    prev_len = getattr(ex, 'len_hook', None)
+
+    def len_hook(ex_, e, v, st):
+        if isinstance(v, Table):
+            return v.n
+        return prev_len(ex_, e, v, st) if prev_len else NotImplemented
+    ex.len_hook = len_hook
 
 
 class CaretC(RtContract):
